@@ -116,3 +116,86 @@ Theorem C01_source_inbound_pipeline_sound :
       (SignedPath dsig ch cfg now root r \/ UnsignedPath dsig ch cfg now root r).
 Proof. exact source_pipeline_acceptance_sound. Qed.
 Print Assumptions C01_source_inbound_pipeline_sound.
+
+(* ---- the same pipeline FROM THE WIRE BYTES (P_PipelineBytes.v): the last oracle of the front end, etree's ReadFromBytes +
+   Root(), is instantiated with the tokenizer / tree-building model XmlTok.read_root (the model compared token for token and
+   tree for tree with the real decoder on every C09 / C20 run).  [reader_with junk] answers read_root's root without an error,
+   and an error beside [junk s] — the partially built root etree leaves in the document when a read fails midway —; junk is
+   universally quantified: parseResponse never looks at it.  The parse stage is [bytes_parse], written out over read_root in
+   C01_parse_stage_from_bytes; the decrypted-assertion path (decryptAssertions -> parseResponse of the plaintext) goes through
+   the same instance ([bytes_chain]).  Remaining oracles: DEFLATE, the round-trip validator, goxmldsig's Validate, RSA / AES,
+   SHA-1 hex, X.509 parsing. ---- *)
+From V Require Import XmlTok P_GenDeflate P_PipelineBytes.
+Theorem C01_source_inbound_pipeline_from_bytes :
+  forall inflate rt_ok dsig rsa_oaep rsa_pkcs1 gcm_open cbc_decrypt sha1_hex parse_cert cfg kc venc now junk enc,
+    norm_pm (G_ValidateEncodedResponse (src_parse inflate (reader_with junk) rt_ok cfg) dsig
+               (src_decrypt_all inflate (reader_with junk) rt_ok rsa_oaep rsa_pkcs1 gcm_open cbc_decrypt parse_cert cfg kc venc now) cfg now enc)
+    = PVal (norm_res (entry (bytes_parse inflate rt_ok cfg) enc
+                        (validate_response_tree dsig
+                           (bytes_chain inflate rt_ok rsa_oaep rsa_pkcs1 gcm_open cbc_decrypt sha1_hex parse_cert cfg kc venc now)
+                           cfg now))).
+Proof. exact source_inbound_pipeline_from_bytes. Qed.
+Print Assumptions C01_source_inbound_pipeline_from_bytes.
+
+(* the parse stage of that statement: parseResponse over read_root — the raw bytes first; when they do not parse, the DEFLATE
+   stream under the limit, then read_root of what it inflated to; no top-level element: "unable to parse response"; then the
+   round-trip validator on the bytes that parsed *)
+Theorem C01_parse_stage_from_bytes : forall inflate rt_ok cfg raw,
+  bytes_parse inflate rt_ok cfg raw
+  = let finish (o : option node) (xml : string) :=
+      match o with
+      | None => Err (EOther "unable to parse response")
+      | Some el => if rt_ok xml then Ok el else Err e_roundtrip
+      end in
+    match read_root raw with
+    | Ok o => finish o raw
+    | Err _ =>
+        let m := eff_limit (cfg_max_size cfg) in
+        let r := limit_read_all inflate raw (read_limit m) in
+        if snd r then Err e_inflate
+        else if (zlen (fst r) >? m)%Z then Err (e_limit m)
+        else match read_root (fst r) with Ok o => finish o (fst r) | Err _ => Err e_parse end
+    end.
+Proof. exact bytes_parse_spec. Qed.
+Print Assumptions C01_parse_stage_from_bytes.
+
+(* the reader instance against the oracle's shape: Deflate.v's view of it is read_root's result (read_doc's error, the first
+   top-level element), whatever root a failed read leaves behind *)
+Theorem C01_reader_oracle_is_read_root : forall junk s,
+  parse_of (reader_with junk) s = match read_root s with Ok o => Some o | Err _ => None end.
+Proof. exact parse_of_reader. Qed.
+Print Assumptions C01_reader_oracle_is_read_root.
+
+(* ... and with the goxmldsig oracle instantiated as well: Dsig.v's verifier with canon := Canon.canon_model and
+   reparse := XmlTok.read_tree (DsigReader.dsig_validate_reader; Prop_DSIG.DSIG_sound_reader* say what it accepts), under a store
+   and the SP clock.  Every parser of the inbound SSO path -- the wire bytes, the plaintext of decrypted assertions, the canonical
+   bytes the verifier re-reads -- is now the one tokenizer / tree-building model; what remains an oracle of the composed inbound
+   model: DEFLATE, the round-trip validator, digest and signature check, X.509 parsing, RSA / AES, SHA-1 hex. *)
+From V Require Import Dsig Canon DsigReader.
+Theorem C01_source_inbound_pipeline_from_bytes_crypto_oracles_only :
+  forall inflate rt_ok digest sig_ok x509_parse store rsa_oaep rsa_pkcs1 gcm_open cbc_decrypt sha1_hex parse_cert cfg kc venc now junk enc,
+    norm_pm (G_ValidateEncodedResponse (src_parse inflate (reader_with junk) rt_ok cfg)
+               (dsig_validate_reader digest sig_ok x509_parse store now)
+               (src_decrypt_all inflate (reader_with junk) rt_ok rsa_oaep rsa_pkcs1 gcm_open cbc_decrypt parse_cert cfg kc venc now) cfg now enc)
+    = PVal (norm_res (entry (bytes_parse inflate rt_ok cfg) enc
+                        (validate_response_tree (dsig_validate_reader digest sig_ok x509_parse store now)
+                           (bytes_chain inflate rt_ok rsa_oaep rsa_pkcs1 gcm_open cbc_decrypt sha1_hex parse_cert cfg kc venc now)
+                           cfg now))).
+Proof.
+  exact (fun inflate rt_ok digest sig_ok x509_parse store rsa_oaep rsa_pkcs1 gcm_open cbc_decrypt sha1_hex parse_cert cfg kc venc now junk enc =>
+           source_inbound_pipeline_from_bytes inflate rt_ok (dsig_validate_reader digest sig_ok x509_parse store now)
+             rsa_oaep rsa_pkcs1 gcm_open cbc_decrypt sha1_hex parse_cert cfg kc venc now junk enc).
+Qed.
+Print Assumptions C01_source_inbound_pipeline_from_bytes_crypto_oracles_only.
+
+Theorem C01_source_inbound_pipeline_from_bytes_sound :
+  forall inflate rt_ok dsig rsa_oaep rsa_pkcs1 gcm_open cbc_decrypt sha1_hex parse_cert cfg kc venc now junk enc r,
+    cfg_skip_sig cfg = false ->
+    G_ValidateEncodedResponse (src_parse inflate (reader_with junk) rt_ok cfg) dsig
+      (src_decrypt_all inflate (reader_with junk) rt_ok rsa_oaep rsa_pkcs1 gcm_open cbc_decrypt parse_cert cfg kc venc now) cfg now enc
+    = PVal (Ok (Some r)) ->
+    let ch := bytes_chain inflate rt_ok rsa_oaep rsa_pkcs1 gcm_open cbc_decrypt sha1_hex parse_cert cfg kc venc now in
+    exists raw root, b64_decode enc = Ok raw /\ bytes_parse inflate rt_ok cfg raw = Ok root /\ validate cfg now r = Ok tt /\
+      (SignedPath dsig ch cfg now root r \/ UnsignedPath dsig ch cfg now root r).
+Proof. exact source_pipeline_from_bytes_acceptance_sound. Qed.
+Print Assumptions C01_source_inbound_pipeline_from_bytes_sound.
